@@ -56,15 +56,30 @@ def execute_guarded(mod, trace):
     # the budget is CPU time of this process, not wall-clock time: a machine under load, or a sandbox that is frozen for a
     # snapshot and resumed a minute later, must not turn a millisecond run into a 'hang' (it did once, in a background soak).
     # A run that blocks without burning CPU is left to the wall-clock watchdog in worker_main, which is far longer.
+    # A run that BLOCKS (a lock never released, say) uses no CPU: for that there is a wall-clock alarm in two stages - after
+    # RUN_ALARM_S seconds a first signal only re-arms a short second one, and only if the run has still not returned then is it
+    # a hang.  A frozen sandbox sets off the first stage on resuming; the millisecond run then returns long before the second.
+    stage = {'n': 0}
+
+    def _wall(signum, frame):
+        if stage['n'] == 0:
+            stage['n'] = 1
+            signal.setitimer(signal.ITIMER_REAL, 15)
+            return
+        raise RunTimeout()
     signal.signal(signal.SIGPROF, _alarm)
+    signal.signal(signal.SIGALRM, _wall)
     signal.setitimer(signal.ITIMER_PROF, RUN_ALARM_S)
+    signal.setitimer(signal.ITIMER_REAL, RUN_ALARM_S)
     try:
         res = mod.execute(trace)
     except RunTimeout:
         res = Result()
-        res.violation = {'cls': 'hang', 'msg': 'the run did not return within %d s of CPU time' % RUN_ALARM_S, 'step': None}
+        res.violation = {'cls': 'hang', 'msg': 'the run did not return within %d s of CPU time, or stayed blocked for %d s of wall-clock time' % (RUN_ALARM_S, RUN_ALARM_S + 15),
+                         'step': None}
     finally:
         signal.setitimer(signal.ITIMER_PROF, 0)
+        signal.setitimer(signal.ITIMER_REAL, 0)
     return res
 
 
